@@ -120,6 +120,11 @@ mut("own-H4-harmless-dtype-flip-with-finally", [],
     [("pytorch_wavelets/dwt/lowlevel.py", "    h0 = np.array(h0[::-1]).ravel()\n    h1 = np.array(h1[::-1]).ravel()\n    t = torch.get_default_dtype()\n    h0 = torch.tensor(h0, device=device, dtype=t).reshape((1, 1, -1))\n    h1 = torch.tensor(h1, device=device, dtype=t).reshape((1, 1, -1))\n    return h0, h1",
       "    t = torch.get_default_dtype()\n    torch.set_default_dtype(torch.float64)   # build in full precision, then cast\n    try:\n        h0 = torch.tensor(np.array(h0[::-1]).ravel(), device=device)\n        h1 = torch.tensor(np.array(h1[::-1]).ravel(), device=device)\n        h0 = h0.reshape((1, 1, -1)).to(t)\n        h1 = h1.reshape((1, 1, -1)).to(t)\n    finally:\n        torch.set_default_dtype(t)\n    return h0, h1")])
 
+mut("own-H5-harmless-event-guarded-lazy-init", [],
+    "HARMLESS control: a one-time table warm-up guarded by a non-blocking lock and a threading.Event (late callers wait for the event); correct under every schedule and after a failed first attempt; must NOT alarm and must not hang the simulator",
+    [("pytorch_wavelets/dtcwt/coeffs.py", "COEFF_CACHE = {}\n", "import threading\nCOEFF_CACHE = {}\n_READY = threading.Event()\n_INIT = threading.Lock()\n_WARM = {}\n\n\ndef _warm_up():\n    if _READY.is_set():\n        return\n    if _INIT.acquire(False):\n        try:\n            _WARM['names'] = ('antonini', 'legall', 'near_sym_a', 'near_sym_b')\n            _READY.set()\n        finally:\n            _INIT.release()\n    else:\n        while not _READY.wait(0.01):\n            if _INIT.acquire(False):\n                _INIT.release()\n                return _warm_up()\n"),
+     ("pytorch_wavelets/dtcwt/coeffs.py", "def _load_from_file(basename, varnames):\n\n    try:\n        mat = COEFF_CACHE[basename]", "def _load_from_file(basename, varnames):\n    _warm_up()\n    try:\n        mat = COEFF_CACHE[basename]")])
+
 only = sys.argv[1:]
 for name, breaks, needs, edits in MUTS:
     if only and name not in only:
